@@ -37,7 +37,21 @@ def main():
             os.environ["VERIF_SEED"] = str(generic_replay.get("seed", C.seed()))
             os.environ["VERIF_TIER"] = str(generic_replay.get("tier", args.tier))
     try:
+        snap0 = C.defaults_snapshot()
+    except Exception:  # noqa: BLE001
+        snap0 = None
+    try:
         mod.run(rep, props, replay=replay)
+        if snap0 is not None and replay is None and generic_replay is None:
+            snap1 = C.defaults_snapshot()
+            changed = sorted(k for k in snap0 if snap1.get(k) != snap0[k])
+            if changed:
+                msg = ("mutable default argument(s) modified during the run (state that leaks from one call into every later "
+                       "call): " + "; ".join(f"{k}: {snap0[k]} -> {snap1.get(k)}" for k in changed))[:600]
+                rep.notes.append(msg)
+                # judged where repeatability / history independence is the property itself (C16), for public parameters
+                if pid == "C16" and any(not k.split("#")[-1].startswith("_") for k in changed):
+                    rep.violation(msg, {"changed_defaults": {k: [snap0[k], snap1.get(k)] for k in changed}})
         if generic_replay is not None:
             same = [v for v in rep.violations if json.load(open(v["replay"])).get("what") == generic_replay.get("what")]
             print(f"replay of {args.replay}: " + ("REPRODUCED" if same else "not reproduced on the current tree"))
